@@ -10,13 +10,13 @@ import sys
 HERE = os.path.dirname(os.path.dirname(os.path.abspath(__file__)))
 sys.path.insert(0, HERE)
 from hv import derename  # noqa: E402
-from hv.model import Program  # noqa: E402
+from hv.model import Program, normalise_tree  # noqa: E402
 
 os.environ["HV_NO_DERENAME"] = "1"
 prog = Program()
 out = {}
 for rel, m in sorted(prog.modules.items()):
-    tree = ast.parse(m.source)
+    tree = normalise_tree(ast.parse(m.source))
     r = derename.reference_of_tree(tree)
     if r:
         out[rel] = r
